@@ -427,6 +427,65 @@ pub fn bulk(ctl: &mut Ctl, n: usize, take: usize, abort: bool, weak_n: usize) {
     done(ctl);
 }
 
+/// The count word of a child is stamped when a WeakSnapshot is upgraded; `gap` epochs later the same reader
+/// pins again and upgrades again, and holds the Snapshot while one more advance passes and the already
+/// released parent cascades into the child.  The second upgrade must leave a stamp that is young enough
+/// for the cascade to defer the child (a stamp that is exactly `gap` = 2 epochs old is not).
+pub fn restamp_gap(ctl: &mut Ctl, res: usize, gap: usize) {
+    ctl.advance_to_residue(res);
+    ctl.reset(&format!("dir:restamp_gap:{}:{}", res, gap));
+    ctl.run(0, Op::New { dst: 0, next: RcArg::Null(0) }); // X
+    ctl.run(0, Op::Downgrade { src: 0, dst: 0 });
+    ctl.run(0, Op::New { dst: 1, next: RcArg::Slot(0) }); // P -> X: the link is X's only strong owner
+    ctl.run(0, Op::Give { kind: 'r', slot: 1, to: 1, to_slot: 0 });
+    ctl.run(1, Op::Recv);
+    ctl.run(0, Op::Pin);
+    ctl.run(0, Op::WSnap { src: 0, dst: 0 });
+    ctl.run(0, Op::WSUpgrade { ws: 0, dst: 0 }); // stamps X with the current epoch
+    ctl.run(0, Op::Unpin);
+    ctl.run(1, Op::Drop { slot: 0 }); // P: try_destruct pending from here on
+    adv(ctl, gap);
+    ctl.run(0, Op::Pin);
+    ctl.run(0, Op::WSnap { src: 0, dst: 0 });
+    ctl.run(0, Op::WSUpgrade { ws: 0, dst: 0 }); // Snapshot(X), held
+    adv(ctl, 2); // at most one succeeds while t0 is pinned
+    ctl.run(1, Op::Collect); // P's try_destruct if ripe: cascade into X
+    ctl.run(0, Op::Counted { sn: 0, dst: 2 });
+    adv(ctl, 1);
+    ctl.run(1, Op::Collect);
+    ctl.run(0, Op::Unpin);
+    done(ctl);
+}
+
+/// The epoch is advanced by the code itself here (the harness normally blocks `try_advance` and advances on
+/// its own): a reader that stays in one critical section retires objects by the hundred, which makes its own
+/// `defer` call `try_advance` every 64th time.  Its own announcement must hold the epoch back; otherwise the
+/// object it reads through a Snapshot is destructed by the other thread's collection.
+pub fn self_retire_under_guard(ctl: &mut Ctl, res: usize, n: usize) {
+    ctl.advance_to_residue(res);
+    ctl.reset(&format!("nat:self_retire_under_guard:{}:{}", res, n));
+    ctl.run(0, Op::New { dst: 0, next: RcArg::Null(0) }); // X
+    ctl.run(0, Op::Pin);
+    ctl.run(0, Op::Store { loc: Loc::Cell(0), val: RcArg::Slot(0) });
+    ctl.run(0, Op::Load { loc: Loc::Cell(0), dst: 0 }); // Snapshot(X), held to the end
+    ctl.run(1, Op::Pin);
+    ctl.run(1, Op::Store { loc: Loc::Cell(0), val: RcArg::Null(0) }); // X: 1 -> 0, try_destruct deferred
+    ctl.run(1, Op::Unpin);
+    circ::verif::set_advance_blocked(false);
+    for i in 0..n {
+        ctl.run(0, Op::New { dst: 1, next: RcArg::Null(0) });
+        ctl.run(0, Op::Finalize { slot: 1 }); // defers through the reader's own guard
+        if i % 64 == 63 {
+            ctl.run(1, Op::Collect);
+        }
+    }
+    circ::verif::set_advance_blocked(true);
+    ctl.run(1, Op::Collect);
+    ctl.run(0, Op::Counted { sn: 0, dst: 2 });
+    ctl.run(0, Op::Unpin);
+    done(ctl);
+}
+
 pub fn run_family(ctl: &mut Ctl, fam: &str) -> usize {
     let mut n = 0;
     let all = fam == "all";
@@ -441,6 +500,16 @@ pub fn run_family(ctl: &mut Ctl, fam: &str) -> usize {
                 upgrade_token_window(ctl, res, k);
                 n += 1;
             }
+        }
+        if all || fam == "c02" || fam == "c05" {
+            for gap in 0..=4 {
+                restamp_gap(ctl, res, gap);
+                n += 1;
+            }
+        }
+        if (all || fam == "c02") && res == 14 {
+            self_retire_under_guard(ctl, res, 200);
+            n += 1;
         }
         if all || fam == "c01" || fam == "c05" {
             inc_from_zero(ctl, res, site::U_INC_FAA1);
